@@ -8,6 +8,12 @@
      polynomial    term+term+...  or  0        (input: fed to from_iter in this order; output: terms sorted as strings)
    Cases:
      prog R M nregs op...     straight-line program over registers (all start as zero); one output token per op
+                              single-term constructors (the model's p_from_pair / p_from_mono / p_from_const, i.e.
+                              Lc.from_pair x r = from_iter [(x, r)] by definition, covered by C16_no_zero_constructors):
+                                term d x@c   From<(X, R)>          dterm d x a b   From<(X, R)> of (x, a - b)
+                                gen d x      From<X>               const d c       PolyBase::from_const
+                                pstr d s     PolyBase::from_str on an integer literal (R::from_str succeeds: from_const)
+                                             or, one variable, on "x" / "x^d" / "x^{d}" (X::from_str: From<X>)
      mono M op args           monomial operations
      mdeg u|i op args         MultiDeg operations
      hp R op args             HPoly operations (value = deg@coeff) *)
@@ -19,12 +25,14 @@ let sort_strings l = Stdlib.List.sort Stdlib.compare l
 let b01 b = if b then "1" else "0"
 
 (* ---------- coefficient rings ---------- *)
-type 'r rcodec = { ro : 'r ring_ops; rparse : string -> 'r; rprint : 'r -> string; ru : 'r unit_ops option }
+type 'r rcodec = { ro : 'r ring_ops; rparse : string -> 'r; rprint : 'r -> string; ru : 'r unit_ops option;
+                   rint : string -> 'r   (* the ring element of an integer literal: R::from_str *) }
 
-let zc = { ro = z_ring; rparse = z_of_string; rprint = string_of_z; ru = Some z_units }
+let zc = { ro = z_ring; rparse = z_of_string; rprint = string_of_z; ru = Some z_units; rint = z_of_string }
 let f3c = { ro = f3_ring;
             rparse = (fun s -> Z.modulo (z_of_string s) (z_of_string "3"));
-            rprint = string_of_z; ru = Some f3_units }
+            rprint = string_of_z; ru = Some f3_units;
+            rint = (fun s -> Z.modulo (z_of_string s) (z_of_string "3")) }
 let qc = { ro = q_ring;
            rparse = (fun s -> match split '/' s with
                       | [a; b] -> (match z_of_string b with
@@ -33,11 +41,12 @@ let qc = { ro = q_ring;
                       | [a] -> { qnum = z_of_string a; qden = XH }
                       | _ -> failwith "bad rational");
            rprint = (fun x -> string_of_z x.qnum ^ "/" ^ string_of_z (Zpos x.qden));
-           ru = Some q_units }
+           ru = Some q_units; rint = (fun s -> { qnum = z_of_string s; qden = XH }) }
 let gc = { ro = gauss_ring;
            rparse = (fun s -> match split ':' s with
                       | [a; b] -> (z_of_string a, z_of_string b) | _ -> failwith "bad gaussian");
-           rprint = (fun (a, b) -> string_of_z a ^ ":" ^ string_of_z b); ru = None }
+           rprint = (fun (a, b) -> string_of_z a ^ ":" ^ string_of_z b); ru = None;
+           rint = (fun s -> (z_of_string s, Z0)) }
 
 (* ---------- monomial types ---------- *)
 type 'x mcodec = {
@@ -120,6 +129,18 @@ let observe rc mc (is_fr : bool) (p : ('x, 'r) lc) : string =
        ^ ";ct=" ^ rc.rprint (p_const_term m o p)
        ^ ";lt=" ^ print_term rc mc (p_lead_term m o p)
 
+let is_int_lit (s : string) : bool =
+  let t = if String.length s > 0 && s.[0] = '-' then String.sub s 1 (String.length s - 1) else s in
+  t <> "" && (let ok = ref true in String.iter (fun c -> if c < '0' || c > '9' then ok := false) t; !ok)
+(* exponent text of "x", "x^d" (one digit), "x^{d}" *)
+let xvar_exp (s : string) : string =
+  let n = String.length s in
+  if s = "x" then "1"
+  else if n = 3 && String.sub s 0 2 = "x^" && is_int_lit (String.sub s 2 1) && s.[2] <> '-' then String.sub s 2 1
+  else if n >= 5 && String.sub s 0 3 = "x^{" && s.[n - 1] = '}' && is_int_lit (String.sub s 3 (n - 4))
+  then String.sub s 3 (n - 4)
+  else failwith ("bad monomial string " ^ s)
+
 let run_prog (type x r) (rc : r rcodec) (mc : x mcodec) (is_fr : bool) (toks : string list) : string =
   let m = mc.mo and o = rc.ro in
   let nat = nat_of_string in
@@ -131,9 +152,22 @@ let run_prog (type x r) (rc : r rcodec) (mc : x mcodec) (is_fr : bool) (toks : s
       let real (p : (x, r) op) rest =
         let regs' = step m o regs p in
         go regs' rest (observe rc mc is_fr (rd regs' (dest p)) :: acc) in
+      let put d (v : (x, r) lc) rest =
+        let regs' = wr regs (nat d) v in
+        go regs' rest (observe rc mc is_fr (rd regs' (nat d)) :: acc) in
       match toks with
       | [] -> Stdlib.List.rev acc
       | "set" :: d :: p :: rest -> real (OSet (nat d, parse_terms rc mc p)) rest
+      | "term" :: d :: t :: rest -> let (x, c) = parse_term rc mc t in put d (p_from_pair m o x c) rest
+      | "dterm" :: d :: x :: a :: b :: rest ->
+          put d (p_from_pair m o (mc.mparse x) (o.radd (rc.rparse a) (o.rneg (rc.rparse b)))) rest
+      | "gen" :: d :: x :: rest -> put d (p_from_mono m o (mc.mparse x)) rest
+      | "const" :: d :: c :: rest ->
+          if is_fr then failwith "const on Lc<Free>" else put d (p_from_const m o (rc.rparse c)) rest
+      | "pstr" :: d :: s :: rest ->
+          if is_fr then failwith "pstr on Lc<Free>"
+          else if is_int_lit s then put d (p_from_const m o (rc.rint s)) rest
+          else put d (p_from_mono m o (mc.mparse (xvar_exp s))) rest
       | "add" :: d :: a :: b :: rest -> real (OAdd (nat d, nat a, nat b)) rest
       | "sub" :: d :: a :: b :: rest -> real (OSub (nat d, nat a, nat b)) rest
       | "neg" :: d :: a :: rest -> real (ONeg (nat d, nat a)) rest
